@@ -323,7 +323,8 @@ def em_update_matrix(
                 )
                 # assert(col_ind[context_ind[i + win_offset[w]]] == context+w * n_unique_tokens)
                 if (
-                    col_ind[context_ind[i + win_offset[w]]]
+                    context_ind[i + win_offset[w]] < len(col_ind)
+                    and col_ind[context_ind[i + win_offset[w]]]
                     == context + w * n_unique_tokens
                 ):
                     window_posterior[i + win_offset[w]] = (
